@@ -127,6 +127,8 @@ func checkC17(c *Ctx) {
 		fieldSrc: map[string]string{
 			"lib.DecoyRegistration.registrationAddr": "the registrant (client) address stored in the registration",
 			"proto.C2SWrapper.RegistrationAddress":   "the registrant (client) address of the registration message",
+			"proto.DTLSTransportParams.SrcAddr4":     "the client's own IPv4 endpoint announced in its DTLS transport parameters",
+			"proto.DTLSTransportParams.SrcAddr6":     "the client's own IPv6 endpoint announced in its DTLS transport parameters",
 		},
 		models: map[string]extModel{
 			"(*github.com/oschwald/geoip2-golang.Reader).Country": {cleanResults: map[int]bool{0: true}, reason: "the record describes the network (country), not the address; the error is NOT clean: maxminddb embeds the looked-up address"},
